@@ -110,6 +110,23 @@ pub fn subcommand(args: &[String]) -> Option<i32> {
             }
             Some(0)
         }
+        "rustc-batch" => {
+            // rustc-batch <stream-hex e.g. C01> <seed> <first batch> <last batch> <size> <encodings> [standalone]
+            let base = u64::from_str_radix(&args[1], 16).unwrap_or(0xC01);
+            let seed: u64 = args[2].parse().unwrap_or(0);
+            let (b0, b1): (u64, u64) = (args[3].parse().unwrap_or(0), args[4].parse().unwrap_or(0));
+            let size: usize = args[5].parse().unwrap_or(60);
+            let encs: usize = args[6].parse().unwrap_or(4);
+            let standalone = args.get(7).map(|s| s == "standalone").unwrap_or(false);
+            for b in b0..=b1 {
+                let (cases, _) = crate::rustc_tier::make_cases_ext(seed, base + b, size, !standalone, encs, standalone);
+                match crate::rustc_tier::run_batch(&format!("dbg-{b}"), &cases, true) {
+                    Ok(n) => println!("batch {b} ok, {n} byte checks"),
+                    Err(f) => println!("batch {b} failed: {} [{}]", f.msg.chars().take(600).collect::<String>(), f.signature),
+                }
+            }
+            Some(0)
+        }
         "show-tape" => {
             // show-tape <hex> [plain]: print the program a tape decodes to
             let bytes = crate::tape::unhex(&args[1]).unwrap_or_default();
